@@ -238,7 +238,7 @@ def c19_search(rng, budget):
             try:
                 if r < 0.25 or len(heap) < 2:
                     k = rng.choice(S.KINDS)
-                    v = rng.choice([0.0, 1.0, -1.0, rng.uniform(-50, 50), rng.uniform(0, 1e-3), rng.randint(-3, 3)])
+                    v = rng.choice([0.0, 1.0, -1.0, rng.uniform(-50, 50), rng.uniform(0, 1e-3), rng.randint(-3, 3), 1e-13, -1e-13, 5e-13, -3e-17, 0.1, 0.2, 0.3, 1e-20])
                     u = rng.choice(S.units(k))
                     trace.append(('ctor', k, v, u))
                     heap.append(mk(k, v, u))
@@ -255,7 +255,7 @@ def c19_search(rng, budget):
                         heap.append(res)
                 elif r < 0.75:
                     i = rng.randrange(len(heap))
-                    x = rng.choice([0, 0.0, -1, -0.5, 2, 0.5, rng.uniform(-3, 3)])
+                    x = rng.choice([0, 0.0, -1, -0.5, 2, 0.5, rng.uniform(-3, 3), -1e-3, 1e-9])
                     op = rng.choice(['*n', 'n*', '/n'])
                     trace.append((op, i, x))
                     res = {'*n': lambda: heap[i] * x, 'n*': lambda: x * heap[i], '/n': lambda: heap[i] / x}[op]()
